@@ -1,1 +1,222 @@
-From LW Require Import Model.Fock.
+(* C04 — Sampler distribution is normalised, exact and the same for both back ends.
+   Statements only; every proof is [exact <lemma of Proofs/DistP.v>].
+
+   Reading guide (all over the Coq reals: [rops : ops R], complex = pairs [cops]).
+     n, l            circuit modes / loss modes; U = U_full has dimension n + l
+     ins             the full input state (length n, heralds already inserted)
+     full_dist b eps n l U ins
+                     Backend.full_probability_distribution for back end b = Permanent | Slos
+                     with sampler_probability_threshold eps (Model/Fock.v)
+     pdist_calc b eps n l U inputs
+                     pdist_calc (State variant, repaired vacuum bookkeeping) on the weighted inputs
+     prob_of rops U i o = |permanent of the photon-indexed sub-matrix|^2 / (prod i! prod o!)
+     focks l m       every occupation of l modes by m photons, once ([C04_focks_exact])
+     marg U n l ins k  = sum over lo in focks l (osum ins - osum k) of
+                         prob_of rops U (ins ++ repeat 0 l) (k ++ lo):
+                       the total probability of pattern k on the circuit modes, summed over every way
+                       the remaining photons can have been lost
+     margt eps ...   the same sum where a full state contributes only if its probability exceeds eps
+     pd_val d k      value of dictionary d at key k, 0 when absent; pd_total d = sum(d.values())
+     n_full_states n l ins = number of full output states of the input's photon number
+     mixture n inputs : weights >= 0 summing to 1 on states of n modes; mix inputs f = sum_i w_i f(ins_i) *)
+From Coq Require Import ZArith List Bool Arith Lia Reals Lra.
+From LW Require Import Base.Num Base.Sums Base.Mat Base.RInst Model.State Model.Fock
+     Proofs.PermP Proofs.FockUnitP Proofs.DistP.
+From LW Require Import Base.QI2.
+Import ListNotations.
+Open Scope nat_scope.
+
+(* ---------------- the specification is what it says ---------------- *)
+Theorem C04_focks_exact :
+  forall l m t, In t (focks l m) <-> length t = l /\ osum t = m.
+Proof. exact focks_exact. Qed.
+Print Assumptions C04_focks_exact.
+
+(* a pattern with more photons than were injected has marginal probability 0 (the truncated
+   subtraction in [marg] does not create probability) *)
+Theorem C04_marg_excess_is_zero :
+  forall (U : @mat C) n l ins k, osum ins < osum k -> marg U n l ins k = 0%R.
+Proof. exact marg_excess. Qed.
+Print Assumptions C04_marg_excess_is_zero.
+
+(* ---------------- eps = 0: exact, both back ends ---------------- *)
+(* each pattern (the vacuum pattern included, also for a vacuum input) gets its total probability
+   summed over every way the remaining photons can have been lost *)
+Theorem C04_dist_marginal :
+  forall (b : backend) n l (U : @mat C) ins k,
+    unitary cops (n + l) U -> length ins = n -> length k = n ->
+    pd_val (full_dist rops b 0%R n l U ins) k = marg U n l ins k.
+Proof. exact (fun b n l U ins k HU => dist_exact_eps0 b n l U ins k (proj1 HU)). Qed.
+Print Assumptions C04_dist_marginal.
+
+(* the two back ends return the same finitely supported function (every key k, any length) *)
+Theorem C04_dist_backend_independent :
+  forall n l (U : @mat C) ins k,
+    unitary cops (n + l) U -> length ins = n ->
+    pd_val (full_dist rops Permanent 0%R n l U ins) k = pd_val (full_dist rops Slos 0%R n l U ins) k.
+Proof. exact (fun n l U ins k HU => dist_backend_independent n l U ins k (proj1 HU)). Qed.
+Print Assumptions C04_dist_backend_independent.
+
+Theorem C04_dist_sums_to_one_eps0 :
+  forall (b : backend) n l (U : @mat C) ins,
+    unitary cops (n + l) U -> length ins = n -> pd_total rops (full_dist rops b 0%R n l U ins) = 1%R.
+Proof. exact (fun b n l U ins HU => dist_total_eps0 b n l U ins (proj1 HU)). Qed.
+Print Assumptions C04_dist_sums_to_one_eps0.
+
+(* ---------------- every threshold eps ---------------- *)
+(* every non-vacuum pattern: both back ends return exactly the truncated marginal, for EVERY
+   matrix (no unitarity needed) — hence they agree for every eps *)
+Theorem C04_dist_truncated_marginal :
+  forall (b : backend) (eps : R) n l (U : @mat C) ins k,
+    length ins = n -> length k = n -> osum k <> 0 ->
+    pd_val (full_dist rops b eps n l U ins) k = margt eps U n l ins k.
+Proof. exact dist_value_nonvac. Qed.
+Print Assumptions C04_dist_truncated_marginal.
+
+Theorem C04_dist_backend_independent_truncated :
+  forall (eps : R) n l (U : @mat C) ins k,
+    length ins = n -> length k = n -> osum k <> 0 ->
+    pd_val (full_dist rops Permanent eps n l U ins) k = pd_val (full_dist rops Slos eps n l U ins) k.
+Proof. exact dist_backend_independent_nonvac. Qed.
+Print Assumptions C04_dist_backend_independent_truncated.
+
+(* hence: within eps per lost-photon configuration below the exact marginal, never above *)
+Theorem C04_dist_upper :
+  forall (b : backend) (eps : R) n l (U : @mat C) ins k,
+    length ins = n -> length k = n -> osum k <> 0 ->
+    (pd_val (full_dist rops b eps n l U ins) k <= marg U n l ins k)%R.
+Proof. exact dist_upper. Qed.
+Print Assumptions C04_dist_upper.
+
+Theorem C04_dist_lower :
+  forall (b : backend) (eps : R) n l (U : @mat C) ins k,
+    (0 <= eps)%R -> length ins = n -> length k = n -> osum k <> 0 ->
+    (marg U n l ins k - eps * INR (length (focks l (osum ins - osum k))) <=
+     pd_val (full_dist rops b eps n l U ins) k)%R.
+Proof. exact dist_lower. Qed.
+Print Assumptions C04_dist_lower.
+
+(* all values are non-negative (every matrix, every eps, every input) *)
+Theorem C04_dist_nonneg :
+  forall (b : backend) (eps : R) n l (U : @mat C) ins k v,
+    In (k, v) (full_dist rops b eps n l U ins) -> (0 <= v)%R.
+Proof. exact (fun b eps n l U ins => dist_nonneg b eps n l U ins). Qed.
+Print Assumptions C04_dist_nonneg.
+
+(* keys are duplicate-free patterns of the n circuit modes *)
+Theorem C04_dist_keys :
+  forall (b : backend) (eps : R) n l (U : @mat C) ins,
+    length ins = n ->
+    NoDup (pd_keys (full_dist rops b eps n l U ins)) /\
+    forall k, In k (pd_keys (full_dist rops b eps n l U ins)) -> length k = n.
+Proof.
+  exact (fun b eps n l U ins H =>
+           conj (proj1 (dist_keys b eps n l U ins H))
+                (fun k Hk => proj1 (proj2 (dist_keys b eps n l U ins H) k Hk))).
+Qed.
+Print Assumptions C04_dist_keys.
+
+(* no pattern holds more photons than were injected *)
+Theorem C04_dist_photon_bound :
+  forall (b : backend) (eps : R) n l (U : @mat C) ins k,
+    length ins = n -> In k (pd_keys (full_dist rops b eps n l U ins)) -> osum k <= osum ins.
+Proof. exact (fun b eps n l U ins k H Hk => proj2 (proj2 (dist_keys b eps n l U ins H) k Hk)). Qed.
+Print Assumptions C04_dist_photon_bound.
+
+(* the values sum to one up to the per-state truncation: at most eps is lost per full output state *)
+Theorem C04_dist_total :
+  forall (b : backend) (eps : R) n l (U : @mat C) ins,
+    (0 <= eps)%R -> unitary cops (n + l) U -> length ins = n ->
+    (1 - eps * INR (n_full_states n l ins) <= pd_total rops (full_dist rops b eps n l U ins) <= 1)%R.
+Proof. exact (fun b eps n l U ins He HU => dist_total_bounds b eps n l U ins He (proj1 HU)). Qed.
+Print Assumptions C04_dist_total.
+
+(* reading aids: the total is the sum of the values over the keys; the count of full output states
+   is the size of the basis the permanent back end enumerates *)
+Theorem C04_total_is_sum_over_keys :
+  forall d : @pdict R, NoDup (pd_keys d) -> pd_total rops d = suml rops (pd_keys d) (pd_val d).
+Proof. exact pd_total_keys. Qed.
+Print Assumptions C04_total_is_sum_over_keys.
+
+Theorem C04_n_full_states_is_fock_basis_size :
+  forall n l ins, 0 < n + l -> n_full_states n l ins = length (fock_sums (n + l) (osum ins)).
+Proof. exact n_full_states_fock_sums. Qed.
+Print Assumptions C04_n_full_states_is_fock_basis_size.
+
+(* ---------------- pdist_calc on a normalised mixture of inputs ---------------- *)
+Theorem C04_pdist_marginal_eps0 :
+  forall (b : backend) n l (U : @mat C) inputs k,
+    mixture n inputs -> unitary cops (n + l) U -> length k = n ->
+    pd_val (pdist_calc rops b 0%R n l U inputs) k = mix inputs (fun ins => marg U n l ins k).
+Proof. exact (fun b n l U inputs k Hm HU => pdist_exact_eps0 b n l U inputs k Hm (proj1 HU)). Qed.
+Print Assumptions C04_pdist_marginal_eps0.
+
+Theorem C04_pdist_truncated_marginal :
+  forall (b : backend) (eps : R) n l (U : @mat C) inputs k,
+    mixture n inputs -> length k = n -> osum k <> 0 ->
+    pd_val (pdist_calc rops b eps n l U inputs) k = mix inputs (fun ins => margt eps U n l ins k) /\
+    (pd_val (pdist_calc rops b eps n l U inputs) k <= mix inputs (fun ins => marg U n l ins k))%R.
+Proof.
+  exact (fun b eps n l U inputs k Hm Hk Hnz =>
+           conj (pdist_value_nonvac b eps n l U inputs Hm k Hk Hnz)
+                (pdist_upper b eps n l U inputs Hm k Hk Hnz)).
+Qed.
+Print Assumptions C04_pdist_truncated_marginal.
+
+(* on a lossy circuit the missing mass is ADDED to the vacuum entry: the total is exactly one *)
+Theorem C04_pdist_sums_to_one_lossy :
+  forall (b : backend) (eps : R) n l (U : @mat C) inputs,
+    mixture n inputs -> (0 <= eps)%R -> unitary cops (n + l) U -> l <> 0 ->
+    pd_total rops (pdist_calc rops b eps n l U inputs) = 1%R.
+Proof. exact (fun b eps n l U inputs Hm He HU => pdist_total_lossy b eps n l U inputs Hm He (proj1 HU)). Qed.
+Print Assumptions C04_pdist_sums_to_one_lossy.
+
+(* in general (lossless circuits included): one up to the per-state truncation *)
+Theorem C04_pdist_total :
+  forall (b : backend) (eps : R) n l (U : @mat C) inputs (M : nat),
+    mixture n inputs -> (0 <= eps)%R -> unitary cops (n + l) U ->
+    (forall ip, In ip inputs -> n_full_states n l (fst ip) <= M) ->
+    (1 - eps * INR M <= pd_total rops (pdist_calc rops b eps n l U inputs) <= 1)%R.
+Proof.
+  exact (fun b eps n l U inputs M Hm He HU => pdist_total_bounds b eps n l U inputs Hm M He (proj1 HU)).
+Qed.
+Print Assumptions C04_pdist_total.
+
+Theorem C04_pdist_nonneg :
+  forall (b : backend) (eps : R) n l (U : @mat C) inputs k v,
+    mixture n inputs -> In (k, v) (pdist_calc rops b eps n l U inputs) -> (0 <= v)%R.
+Proof. exact (fun b eps n l U inputs k v Hm => pdist_nonneg b eps n l U inputs Hm k v). Qed.
+Print Assumptions C04_pdist_nonneg.
+
+(* keys: duplicate-free patterns of n modes holding at most the photons of some input *)
+Theorem C04_pdist_keys_photon_bound :
+  forall (b : backend) (eps : R) n l (U : @mat C) inputs,
+    mixture n inputs ->
+    NoDup (pd_keys (pdist_calc rops b eps n l U inputs)) /\
+    forall k, In k (pd_keys (pdist_calc rops b eps n l U inputs)) ->
+              length k = n /\ exists ip, In ip inputs /\ osum k <= osum (fst ip).
+Proof. exact pdist_keys. Qed.
+Print Assumptions C04_pdist_keys_photon_bound.
+
+(* ---------------- regression: what the repair of finding F1 rules out ---------------- *)
+(* with the old vacuum bookkeeping (vacuum entry := 1 - total, [pdist_calc_overwrite]) there is a
+   unitary lossy circuit (beam splitter with transmission amplitude ~2e-5, then a loss), a one-photon
+   input and the documented threshold 1e-9 on which the slos distribution sums to less than 1/2;
+   the repaired pdist_calc returns total exactly 1 on the same input (exact rationals, closed proof) *)
+Theorem C04_pdist_overwrite_loses_mass_regression :
+  exists (U : @mat (Qcanon.Qc * Qcanon.Qc)) (inputs : @pdict Qcanon.Qc) (eps : Qcanon.Qc),
+    F1Witness.unitaryb 3 U = true /\ pd_total qcops inputs = Qcanon.Q2Qc (QArith_base.Qmake 1 1) /\
+    klt qcops (pd_total qcops (pdist_calc_overwrite qcops Slos eps 2 1 U inputs)) (F1Witness.q 1 2) = true /\
+    keqb qcops (pd_total qcops (pdist_calc qcops Slos eps 2 1 U inputs)) (Qcanon.Q2Qc (QArith_base.Qmake 1 1)) = true.
+Proof. exact pdist_overwrite_loses_mass. Qed.
+Print Assumptions C04_pdist_overwrite_loses_mass_regression.
+
+(* ---------------- the hypotheses are satisfiable, the specification is not trivial ---------------- *)
+Example C04_unitary_nonvacuous : unitary cops (2 + 1) (mid cops).
+Proof. exact (unitary_mid 3). Qed.
+
+Example C04_mixture_nonvacuous : mixture 2 [([1; 0], (1 / 2)%R); ([0; 0], (1 / 2)%R)].
+Proof. exact mixture_example. Qed.
+
+Example C04_marg_nontrivial : marg (mid cops) 1 0 [1] [1] = 1%R.
+Proof. exact marg_identity_example. Qed.
